@@ -14,8 +14,10 @@ import (
 	"math/big"
 	"os"
 	"reflect"
+	"sort"
 	"unsafe"
 
+	"github.com/tuneinsight/lattigo/v6/core/rgsw"
 	"github.com/tuneinsight/lattigo/v6/core/rlwe"
 	"github.com/tuneinsight/lattigo/v6/multiparty"
 	"github.com/tuneinsight/lattigo/v6/multiparty/mpbgv"
@@ -585,6 +587,135 @@ func ops(f *fix) []fop {
 			evk = f.kgD.GenEvaluationKeyNew(f.sk2, f.sk)
 		}
 		return []arg{{"share", "in", &a}, {"evk", "out", evk}}, func() error { return evkg.GenEvaluationKey(a, crp, evk) }
+	})
+
+	// ---- rlwe.Evaluator and rgsw (the scheme evaluators are driven by the IntEval / ApproxEval machines)
+	type evalKit struct {
+		ev  *rlwe.Evaluator
+		swk *rlwe.EvaluationKey
+	}
+	mkEval := func(d bool) evalKit {
+		galEls := []uint64{p.GaloisElement(1), p.GaloisElement(2), p.GaloisElementOrderTwoOrthogonalSubgroup()}
+		galEls = append(galEls, rlwe.GaloisElementsForTrace(p, 2)...)
+		galEls = append(galEls, rlwe.GaloisElementsForInnerSum(p, 1, 5)...)
+		galEls = append(galEls, rlwe.GaloisElementsForReplicate(p, 1, 5)...)
+		seen := map[uint64]bool{}
+		uniq := []uint64{}
+		for _, g := range galEls {
+			if !seen[g] {
+				seen[g] = true
+				uniq = append(uniq, g)
+			}
+		}
+		// the element lists come out of maps: a fixed order, so that both runs draw the same keys
+		sort.Slice(uniq, func(i, j int) bool { return uniq[i] < uniq[j] })
+		rlk := f.kg.GenRelinearizationKeyNew(f.sk)
+		gks := f.kg.GenGaloisKeysNew(uniq, f.sk)
+		swk := f.kg.GenEvaluationKeyNew(f.sk, f.sk2)
+		ev := rlwe.NewEvaluator(p, rlwe.NewMemEvaluationKeySet(rlk, gks...))
+		if d { // an evaluator that has been used on other data
+			junk, junk2 := f.dirtyCt(p, 1, L, true), f.dirtyCt(p, 1, L, true)
+			tr.Must(ev.Automorphism(junk, p.GaloisElement(2), junk2))
+			tr.Must(ev.PartialTracesSum(junk, 1, 5, junk2))
+			tr.Must(ev.ApplyEvaluationKey(junk, swk, junk2))
+		}
+		return evalKit{ev, swk}
+	}
+	add("rlweeval", "ApplyEvaluationKey", func(d bool) ([]arg, func() error) {
+		k := mkEval(d)
+		ct, _ := f.bgvCt(1)
+		o := f.dirtyCt(p, 1, 1, d)
+		return []arg{{"ct", "in", ct}, {"evk", "in", k.swk}, {"out", "out", o}}, func() error { return k.ev.ApplyEvaluationKey(ct, k.swk, o) }
+	})
+	add("rlweeval", "Relinearize", func(d bool) ([]arg, func() error) {
+		k := mkEval(d)
+		ct, _ := f.bgvCt(1)
+		ct2, err := bgv.NewEvaluator(f.bp, nil).MulNew(ct, ct)
+		tr.Must(err)
+		o := f.dirtyCt(p, 1, 1, d)
+		return []arg{{"ct", "in", ct2}, {"out", "out", o}}, func() error { return k.ev.Relinearize(ct2, o) }
+	})
+	add("rlweeval", "Automorphism", func(d bool) ([]arg, func() error) {
+		k := mkEval(d)
+		ct, _ := f.bgvCt(1)
+		o := f.dirtyCt(p, 1, 1, d)
+		return []arg{{"ct", "in", ct}, {"out", "out", o}}, func() error { return k.ev.Automorphism(ct, p.GaloisElement(1), o) }
+	})
+	add("rlweeval", "Automorphism/identity", func(d bool) ([]arg, func() error) {
+		k := mkEval(d)
+		ct, _ := f.bgvCt(1)
+		o := f.dirtyCt(p, 1, 1, d)
+		return []arg{{"ct", "in", ct}, {"out", "out", o}}, func() error { return k.ev.Automorphism(ct, 1, o) }
+	})
+	add("rlweeval", "AutomorphismHoisted", func(d bool) ([]arg, func() error) {
+		k := mkEval(d)
+		ct, _ := f.bgvCt(1)
+		o := f.dirtyCt(p, 1, 1, d)
+		return []arg{{"ct", "in", ct}, {"out", "out", o}}, func() error {
+			k.ev.DecomposeNTT(1, p.MaxLevelP(), p.PCount(), ct.Value[1], ct.IsNTT, k.ev.BuffDecompQP)
+			return k.ev.AutomorphismHoisted(1, ct, k.ev.BuffDecompQP, p.GaloisElement(2), o)
+		}
+	})
+	add("rlweeval", "Trace", func(d bool) ([]arg, func() error) {
+		k := mkEval(d)
+		ct, _ := f.bgvCt(1)
+		o := f.dirtyCt(p, 1, 1, d)
+		return []arg{{"ct", "in", ct}, {"out", "out", o}}, func() error { return k.ev.Trace(ct, 2, o) }
+	})
+	add("rlweeval", "PartialTracesSum", func(d bool) ([]arg, func() error) {
+		k := mkEval(d)
+		ct, _ := f.bgvCt(1)
+		o := f.dirtyCt(p, 1, 1, d)
+		return []arg{{"ct", "in", ct}, {"out", "out", o}}, func() error { return k.ev.PartialTracesSum(ct, 1, 5, o) }
+	})
+	add("rlweeval", "Replicate", func(d bool) ([]arg, func() error) {
+		k := mkEval(d)
+		ct, _ := f.bgvCt(1)
+		o := f.dirtyCt(p, 1, 1, d)
+
+		return []arg{{"ct", "in", ct}, {"out", "out", o}}, func() error { return k.ev.Replicate(ct, 1, 5, o) }
+	})
+	mkRgsw := func(seedv uint64) *rgsw.Ciphertext {
+		pt := rlwe.NewPlaintext(p, L)
+		pt.IsNTT = true
+		for i := range pt.Value.Coeffs {
+			pt.Value.Coeffs[i][0] = seedv // the constant seedv (NTT of a constant is constant)
+			for j := range pt.Value.Coeffs[i] {
+				pt.Value.Coeffs[i][j] = seedv
+			}
+		}
+		g := rgsw.NewCiphertext(p, L, p.MaxLevelP(), 0)
+		tr.Must(rgsw.NewEncryptor(p, f.sk).Encrypt(pt, g))
+		return g
+	}
+	// the four representations a plaintext can be handed over in
+	for _, rep := range [][2]bool{{true, false}, {true, true}, {false, false}, {false, true}} {
+		rep := rep
+		add("rgsw", fmt.Sprintf("rgsw.Encrypt/ntt=%v,mont=%v", rep[0], rep[1]), func(d bool) ([]arg, func() error) {
+			pt := rlwe.NewPlaintext(p, L)
+			pt.IsNTT, pt.IsMontgomery = rep[0], rep[1]
+			for i := range pt.Value.Coeffs {
+				for j := range pt.Value.Coeffs[i] {
+					pt.Value.Coeffs[i][j] = uint64(3 + j%5)
+				}
+			}
+			enc := rgsw.NewEncryptor(p, f.sk) // before the receiver is dirtied: the generators are keyed in creation order
+			g := rgsw.NewCiphertext(p, L, p.MaxLevelP(), 0)
+			if d {
+				g = mkRgsw(5)
+			}
+			return []arg{{"pt", "in", pt}, {"out", "out", g}}, func() error { return enc.Encrypt(pt, g) }
+		})
+	}
+	add("rgsw", "rgsw.ExternalProduct", func(d bool) ([]arg, func() error) {
+		g := mkRgsw(2)
+		ct, _ := f.bgvCt(L)
+		ev := rgsw.NewEvaluator(p, nil)
+		if d {
+			ev.ExternalProduct(f.dirtyCt(p, 1, L, true), mkRgsw(7), f.dirtyCt(p, 1, L, true))
+		}
+		o := f.dirtyCt(p, 1, L, d)
+		return []arg{{"ct", "in", ct}, {"rgsw", "in", g}, {"out", "out", o}}, func() error { ev.ExternalProduct(ct, g, o); return nil }
 	})
 
 	// ---- collective key switching, conversions, refresh
